@@ -811,10 +811,21 @@ func main() {
 		}
 	}
 	rng := hx.NewRng(hx.SeedFromEnv())
-	o := hx.NewOut(*out)
-	defer o.Close()
+	// unbuffered, one write per case: a panic inside a goroutine spawned by reorg cannot be recovered
+	// and kills the process; everything up to the crashing case is then already on disk
+	f, err := os.Create(*out)
+	if err != nil {
+		panic(err)
+	}
+	defer f.Close()
+	enc := json.NewEncoder(f)
 	st := &stats{ops: map[string]int{}}
-	emit := func(c caseJ) { st.account(c); o.Put(c) }
+	emit := func(c caseJ) {
+		st.account(c)
+		if err := enc.Encode(c); err != nil {
+			panic(err)
+		}
+	}
 	if *in != "" {
 		replayFile(*in, emit)
 	} else {
